@@ -877,16 +877,19 @@ theorem negB2_wf : negB2.WF := by
 
 /-- `appendTier` evaluated, no hypothesis on signs: `B`'s entries are moved by `A`'s end, those landing wholly before
 time 0 are dropped and one crossing 0 is clipped (`shiftClip`); if the sorted concatenation `R` is an admissible entry
-list, the result has exactly these entries, and its span is the hull of `R`, `A`'s start and the sum of both ends -/
+list, the result has exactly these entries, and its span is the hull of `R`, `A`'s start and the sum of both ends
+(the two ends in order: the constructor swaps them if an entry-less result comes out reversed, fix 9432f3b) -/
 theorem append_eval (t u : ITier Int) (hu : u.WF) (R : List (Iv Int))
     (hR : sortIvs (t.es ++ u.es.filterMap (fun iv => (shiftClip t.hi u.lo u.hi iv).2)) = R)
     (hp : Pos R) (hd : Disj R) (hs : Stripped R) :
-    t.appendTier u = .ok ⟨t.name, R, hullMin (R.map (·.s)) t.lo, hullMax (R.map (·.e)) (t.hi + u.hi)⟩ := by
+    t.appendTier u = .ok ⟨t.name, R,
+      min (hullMin (R.map (·.s)) t.lo) (hullMax (R.map (·.e)) (t.hi + u.hi)),
+      max (hullMin (R.map (·.s)) t.lo) (hullMax (R.map (·.e)) (t.hi + u.hi))⟩ := by
   obtain ⟨u', e1, _, _, hes, _, _⟩ := shift_ok u hu t.hi .silence (by decide)
   unfold ITier.appendTier ITier.new
   rw [e1]
   simp only [bind, Except.bind, Option.getD_some, Option.getD_none, hes, hR]
-  exact mkITier_of_wf t.name R t.lo (t.hi + u.hi) hp hd hs
+  exact mkITier_of_wf_any t.name R t.lo (t.hi + u.hi) hp hd hs
 
 /-- **FINDING (replayed on the real class) — `appendTier` on negative times loses entries silently.**
 The property text says: appending `B` to `A` yields `A`'s entries unchanged followed by `B`'s entries shifted by `A`'s end
@@ -898,26 +901,26 @@ time.  All six tiers below are well-formed (they pass the constructor and `valid
    returns `[(1,2,'a'),(2,5,'y'),(5,6,'b')]` — `'x'` (it would be `(-2,-1)`) is dropped.
 3. `IntervalTier('A',[(2,4,'a')],0,8).appendTier(IntervalTier('B',[(-10,-7,'x')],-10,6))` returns `[(0,1,'x'),(2,4,'a')]`:
    `B`'s entry, moved to `(-2, 1)`, is clipped to `(0, 1)` and stands BEFORE `A`'s entry.
-4. entry-less tiers: `IntervalTier('A',[],0,1).appendTier(IntervalTier('B',[],-5,-3))` returns a tier spanning `[0, -2]`
-   (`maxTimestamp < minTimestamp`, `validate()` True — cf. `C05.construct_reversed_span_counterexample`).
+4. entry-less tiers: `IntervalTier('A',[],0,1).appendTier(IntervalTier('B',[],-5,-3))` returns a tier spanning `[-2, 0]`:
+   the requested span `[0, 1 + (-3)]` is reversed and the constructor puts it in order (fix 9432f3b, finding A29; before
+   the fix the tier spanned `[0, -2]`) — well-formed, but the start of `A` is not kept.
 
 Expected per the property text: (1) `[(-4,-3,'a'),(-1,0,'b')]`, (2) `'x'` kept at `(-2,-1)` or a praatio error,
-(3) `(-2,1,'x')` or a praatio error, (4) a praatio error or the span `[0, 1 + (-3)]` put in order.  Cause: `appendTier`
+(3) `(-2,1,'x')` or a praatio error.  Cause: `appendTier`
 shifts `B` with `editTimestamps(self.maxTimestamp)`, whose dropping/clipping at time 0 (documented for `editTimestamps`
 itself) is a side effect here.  `Textgrid.appendTextgrid` behaves the same on (1) and (2) (replayed). -/
 theorem append_negative_counterexample :
     negA.WF ∧ posB.WF ∧ negA.appendTier posB = .ok ⟨"A", [⟨-4, -3, "a"⟩], -5, 1⟩ ∧
     posA.WF ∧ negB.WF ∧ posA.appendTier negB = .ok ⟨"A", [⟨1, 2, "a"⟩, ⟨2, 5, "y"⟩, ⟨5, 6, "b"⟩], 0, 7⟩ ∧
     posA2.WF ∧ negB2.WF ∧ posA2.appendTier negB2 = .ok ⟨"A", [⟨0, 1, "x"⟩, ⟨2, 4, "a"⟩], 0, 14⟩ ∧
-    (⟨"A", [], 0, 1⟩ : ITier Int).appendTier ⟨"B", [], -5, -3⟩ = .ok ⟨"A", [], 0, -2⟩ ∧
-    ¬ (⟨"A", [], 0, -2⟩ : ITier Int).WF := by
+    (⟨"A", [], 0, 1⟩ : ITier Int).appendTier ⟨"B", [], -5, -3⟩ = .ok ⟨"A", [], -2, 0⟩ := by
   have wfR2 : (⟨"R", [⟨1, 2, "a"⟩, ⟨2, 5, "y"⟩, ⟨5, 6, "b"⟩], 0, 7⟩ : ITier Int).WF := by
     refine ⟨?_, ?_, ?_, ?_, ?_, ?_⟩ <;> simp [Pos, Disj, Stripped] <;> decide
   have wfR3 : (⟨"R", [⟨0, 1, "x"⟩, ⟨2, 4, "a"⟩], 0, 14⟩ : ITier Int).WF := by
     refine ⟨?_, ?_, ?_, ?_, ?_, ?_⟩ <;> simp [Pos, Disj, Stripped] <;> decide
   have wfE : (⟨"B", [], -5, -3⟩ : ITier Int).WF := by
     refine ⟨?_, ?_, ?_, ?_, ?_, ?_⟩ <;> simp [Pos, Disj, Stripped]
-  refine ⟨negA_wf, posB_wf, ?_, posA_wf, negB_wf, ?_, posA2_wf, negB2_wf, ?_, ?_, ?_⟩
+  refine ⟨negA_wf, posB_wf, ?_, posA_wf, negB_wf, ?_, posA2_wf, negB2_wf, ?_, ?_⟩
   · rw [append_eval negA posB posB_wf [⟨-4, -3, "a"⟩] (by
       have : posB.es.filterMap (fun iv => (shiftClip negA.hi posB.lo posB.hi iv).2) = [] := by decide
       rw [this]; exact sortIvs_of_wf _ negA_wf.pos negA_wf.disj) negA_wf.pos negA_wf.disj negA_wf.stripped]
@@ -936,9 +939,6 @@ theorem append_negative_counterexample :
   · rw [append_eval ⟨"A", [], 0, 1⟩ ⟨"B", [], -5, -3⟩ wfE [] (by simp [sortIvs]) (by simp [Pos]) (by simp [Disj])
       (by simp [Stripped])]
     rfl
-  · intro h
-    have := h.span
-    simp at this
 
 /-! ## non-vacuity: concrete well-formed tiers meet the hypotheses -/
 
